@@ -3,12 +3,16 @@
 Shares the runner of C02 (harness/props/c02.py: run_bits): the same generated modules, with drivers that call
 CouldWriteValue(v), TryToWrite(v), Read() afterwards and dump the whole buffer.
 """
+import json
+import os
+
+from harness import fw, gen_bits, cpp_build
 from harness.props import c02
 
 META = {
     "technique": "Coq proofs about a Gallina mirror of CouldWriteValue / TryToWrite / OffsetBitBlock::WriteUInt+MaskInValue / container store (C++ integer semantics explicit) + differential correspondence through generated code",
-    "level_text": "Machine-checked theorems (Coq 8.16, no axioms): for every width 1..64 and every C++ integer argument type int8_t..uint64_t, UIntView/IntView/EnumView(unsigned)::CouldWriteValue returns true exactly for the representable values and no sub-expression is undefined; a successful TryToWrite of a UInt/Int/unsigned-enum/Flag/Float field at any bit offset of any 1..8-byte container in either byte order stores bytes from which Read() returns the written value and leaves every other bit of the container (and, via splice, every other byte of the root buffer) unchanged; a failed TryToWrite writes nothing; TryToWrite <-> CouldWriteValue /\\ IsComplete, and IsComplete <-> the container's bytes are present. Refuted by the faithful model (findings): signed enums (F1), NullByteOrderer on a short buffer, and BcdView's non-templated argument (narrowing). Tied to /repo on every run by generated modules compiled with the working tree's embossc and g++, comparing CouldWriteValue/TryToWrite/Read/buffer dump with the model (vm_compute) and with an independent arithmetic reference, for range edges +-1, C++ type limits and random values on 0x00/0xFF/random/truncated buffers.",
-    "level_note": "Trusted: Coq kernel + vm_compute; g++ 12 as the semantics of C++; harness/gen_bits.py, harness/cpp_build.py. Proved for the runtime as compiled by GCC/Clang (memcpy + bswap paths); the EMBOSS_NO_OPTIMIZATIONS loops and BcdView's ConvertToBcd/MaxBcd are covered by the model and the correspondence (every run), not yet by theorems. Virtual-field write-through (write_inference + template) is compared on generated +/- chains but its inverse is not yet proved in Coq. [requires] validators are out of scope here (C01).",
+    "level_text": "Machine-checked theorems (Coq 8.16, no axioms): for every width 1..64 and every C++ integer argument type int8_t..uint64_t, UIntView/IntView/EnumView(unsigned)::CouldWriteValue returns true exactly for the representable values and no sub-expression is undefined; a successful TryToWrite of a UInt/Int/Bcd/unsigned-enum/Flag/Float field at any bit offset of any 1..8-byte container in either byte order stores bytes from which Read() returns the written value and leaves every other bit of the container (and, via splice, every other byte of the root buffer) unchanged; a failed TryToWrite writes nothing; TryToWrite <-> CouldWriteValue /\\ IsComplete, and IsComplete <-> the container's bytes are present; write inference's inverse of +/- chains is proved correct (invert_correct) and compared with the real pass on generated read transforms. Refuted by the faithful model (findings): signed enums (F1), NullByteOrderer on a short buffer, and BcdView's non-templated argument (narrowing). Tied to /repo on every run by generated modules compiled with the working tree's embossc and g++, comparing CouldWriteValue/TryToWrite/Read/buffer dump with the model (extracted OCaml for all cases, vm_compute for a sample) and with an independent arithmetic reference, for range edges +-1, C++ type limits and random values on 0x00/0xFF/random/truncated buffers.",
+    "level_note": "Trusted: Coq kernel + vm_compute; g++ 12 as the semantics of C++; harness/gen_bits.py, harness/cpp_build.py. Proved for the runtime as compiled by GCC/Clang (memcpy + bswap paths); the EMBOSS_NO_OPTIMIZATIONS configuration is proved to perform the same UInt/Int/enum/Float writes (portable_writes_agree); BcdView (MaxBcd, ConvertToBcd) is proved for arguments of the value type. Virtual-field write-through (write_inference + template) is compared on generated +/- chains and the inverse synthesised by write_inference is proved correct over unbounded integers (invert_correct); the C++ intermediate types of the generated transform are not modelled (finding virtual-write-unchecked-argument, F8). [requires] validators are out of scope here (C01).",
 }
 
 
@@ -24,3 +28,152 @@ def run(ctx):
     ctx.audit()
     ctx.check_theorems("EmbossV.Bits.Properties_C03", "Bits/Properties_C03.v", expect_min=15)
     c02.run_bits(ctx, "write", "C03")
+    if not getattr(ctx, "replay_path", None):
+        virtual_writes(ctx)
+
+
+VDRIVER = r'''
+#include <cstdio>
+#include <cstdint>
+#include <cstring>
+#include <cstdlib>
+#include "%(name)s.emb.h"
+static void hexout(const unsigned char *p, size_t n) { for (size_t i = 0; i < n; ++i) printf("%%02x", p[i]); }
+static void fill(unsigned char *buf, const char *hex, size_t n) {
+  for (size_t i = 0; i < n; ++i) { unsigned v; sscanf(hex + 2 * i, "%%2x", &v); buf[i] = static_cast<unsigned char>(v); }
+}
+int main() {
+  unsigned char buf[7];
+%(body)s
+  printf("END\\n");
+  return 0;
+}
+'''
+
+
+def _enc(field, x):
+    kind, off, size, lo, hi = gen_bits.PHYS[field]
+    order = {"x": "little", "z": "little", "u": "big"}[field]
+    return off, list((x & ((1 << (8 * size)) - 1)).to_bytes(size, order))
+
+
+def virtual_writes(ctx):
+    """write inference (real pass vs Bits.InvertModel.invert, in Coq) and write-through of +/- virtual fields (C++ vs SPEC)"""
+    n_mod = 30 if ctx.thorough() else 6
+    wd = os.path.join(ctx.bdir, "virtual")
+    os.makedirs(wd, exist_ok=True)
+    script = os.path.join(wd, "ir_dump.py")
+    open(script, "w").write(gen_bits.IR_DUMP_SCRIPT)
+    coq_cases, jobs, plans = [], [], {}
+    for k in range(n_mod):
+        name = "v%d" % k
+        text, vs = gen_bits.virtual_module(name, ctx.rng, n=10)
+        mp = os.path.join(wd, name + ".emb")
+        open(mp, "w").write(text)
+        rc, out = fw.sh([fw.PY, script, mp, fw.REPO], env=fw.repo_env(), timeout=600)
+        line = [l for l in out.splitlines() if l.startswith("{")]
+        if rc != 0 or not line:
+            ctx.violation("write-inference:front-end", "front end failed on a generated virtual-field module: %s" % out[-400:],
+                          dict(kind="module", module=text), found_input=False)
+            continue
+        d = json.loads(line[-1])
+        if "errors" in d:
+            ctx.violation("write-inference:front-end", "generated virtual-field module rejected: %s" % d["errors"],
+                          dict(kind="module", module=text), found_input=False)
+            continue
+        ids = {}
+        by_name = {f["name"]: f for f in d["fields"]}
+        for nm, e in vs:
+            f = by_name[nm]
+            ctx.count("write_method:" + f["method"])
+            if f["method"] == "transform":
+                exp = "(Some (EField %d, %s))" % (ids.setdefault(f["destination"], len(ids)), gen_bits.coq_expr(f["body"], ids))
+            elif f["method"] == "alias":
+                exp = "(Some (EField %d, ELogical))" % ids.setdefault(f["destination"], len(ids))
+            else:
+                exp = "None"
+            coq_cases.append((gen_bits.coq_expr(f["read"], ids), exp, dict(module=text, field=nm, ir=f, expr=e.text)))
+            ctx.case(("inv", e.text), nontrivial=True, sample=dict(field=nm, read_transform=e.text, write_method=f["method"]))
+            # SPEC: invertible +/- chains over one field are writable, everything else generated here is not
+            want = "alias" if e.text == e.field else ("transform" if e.invertible else "read_only")
+            if f["method"] != want:
+                ctx.violation("write-inference:method", "let %s = %s: write_method %s, expected %s" % (nm, e.text, f["method"], want),
+                              dict(kind="module", module=text, field=nm, write_method=f["method"], expected=want), found_input=True)
+        # C++ write-through
+        body, plan = [], []
+        for fi, (nm, e) in enumerate(vs):
+            if not e.invertible or e.a is None:
+                continue
+            kind, off, size, lo, hi = gen_bits.PHYS[e.field]
+            xs = [lo - 1, lo, lo + 1, (lo + hi) // 2, hi - 1, hi, hi + 1]
+            for i, x in enumerate(xs):
+                v = e.a * x + e.b
+                init = [ctx.rng.randrange(256) for _ in range(7)]
+                body.append('  fill(buf, "%s", 7); { auto view = %s::MakeTopView(buf, 7); bool cw = view.%s().CouldWriteValue(%dLL); '
+                            'bool tw = view.%s().TryToWrite(%dLL); printf("V f=%d i=%d cw=%%d tw=%%d y=%%lld buf=", cw, tw, '
+                            'static_cast<long long>(view.%s().Read())); hexout(buf, 7); printf("\\n"); }'
+                            % (gen_bits.hexs(init), name, nm, v, nm, v, fi, i, nm))
+                plan.append((fi, i, nm, e, x, v, init))
+        jobs.append(cpp_build.CppJob(name, text, VDRIVER % dict(name=name, body="\n".join(body))))
+        plans[name] = (text, plan)
+    # --- model vs real pass
+    if coq_cases:
+        runner = fw.CoqCases(ctx, "invert", "Require Import EmbossV.Bits.InvertModel.\nOpen Scope Z_scope.\n",
+                             "invert", "invert_out_eqb", "expr", "(option (expr * expr))", shard=200)
+        try:
+            bad = runner.run(coq_cases)
+        except fw.CoqEvalError as ex:
+            bad = None
+            ctx.violation("model-eval", "Coq evaluation of invert failed: %s" % str(ex)[-400:],
+                          dict(kind="correspondence", correspondence="Bits.InvertModel.invert vs write_inference"), found_input=False)
+        if bad is not None:
+            ctx.obligation("correspondence: write_inference._invert_expression and the model agree on %d read transforms" % len(coq_cases), not bad)
+            for idx, out in bad[:3]:
+                obj = coq_cases[idx][2]
+                ctx.violation("write-inference:correspondence", "let %s = %s: inverse differs from the model's" % (obj["field"], obj["expr"]),
+                              dict(kind="module", module=obj["module"], field=obj["field"], ir=obj["ir"],
+                                   correspondence="Bits.InvertModel.invert vs write_inference._invert_expression", model_outputs=out[:1500]),
+                              found_input=False)
+    # --- C++ write-through vs SPEC
+    results = cpp_build.run_jobs(os.path.join(wd, "cpp"), jobs, parallel=16, timeout=1500)
+    n_obs, n_bad = 0, 0
+    for name, r in sorted(results.items()):
+        text, plan = plans[name]
+        if not r.ok:
+            ctx.violation("cpp-build:" + r.stage, "virtual-field module %s: stage %s failed: %s" % (name, r.stage, r.log[-300:]),
+                          dict(kind="build", module=text, stage=r.stage, log=r.log[-2000:]), found_input=False)
+            continue
+        obs = {}
+        for tag, kv in cpp_build.parse_observations(r.lines):
+            if tag == "V":
+                obs[(int(kv["f"]), int(kv["i"]))] = kv
+        for fi, i, nm, e, x, v, init in plan:
+            o = obs.get((fi, i))
+            n_obs += 1
+            kind, off, size, lo, hi = gen_bits.PHYS[e.field]
+            ok = lo <= x <= hi
+            after = list(init)
+            if ok:
+                o_off, bs = _enc(e.field, x)
+                after[o_off:o_off + len(bs)] = bs
+            ctx.count("virtual-write:" + ("accept" if ok else "reject"))
+            ctx.case(("vw", e.text, v, bytes(init)), nontrivial=True)
+            msg = None
+            if o is None:
+                msg = "missing observation"
+            elif (o["cw"] == "1") != ok:
+                msg = "CouldWriteValue(%d)=%s, expected %d" % (v, o["cw"], ok)
+            elif (o["tw"] == "1") != ok:
+                msg = "TryToWrite(%d)=%s, expected %d" % (v, o["tw"], ok)
+            elif o["buf"] != gen_bits.hexs(after):
+                msg = "buffer after TryToWrite(%d) is %s, expected %s" % (v, o["buf"], gen_bits.hexs(after))
+            elif ok and int(o["y"]) != v:
+                msg = "reads back %s after writing %d" % (o["y"], v)
+            if msg:
+                n_bad += 1
+                # a value outside the virtual field's inferred bounds that is nevertheless accepted: the inverse transform's
+                # result was converted to the C++ type chosen from those bounds before the destination's range test
+                key = "virtual-write-unchecked-argument" if (not ok and o is not None and o["cw"] == "1") else "virtual-write-through"
+                ctx.violation(key, "let %s = %s, initial buffer %s: %s" % (nm, e.text, gen_bits.hexs(init), msg),
+                              dict(kind="module", module=text, field=nm, value=v, buffer=gen_bits.hexs(init), observed=o), found_input=True)
+    ctx.obligation("spec: %d write-through observations of +/- virtual fields agree with the arithmetic reference" % n_obs, n_bad == 0)
